@@ -63,12 +63,12 @@ uint64_t Avtp_VssBrief_GetField(Avtp_VssBrief_t* vss_pdu,
                             Avtp_VssBriefFields_t field)
 {
     return Avtp_GetField(Avtp_VssBriefFieldDesc, AVTP_VSS_BRIEF_FIELD_MAX,
-                         (uint8_t *) vss_pdu, (uint8_t) field);
+                         (uint8_t *) vss_pdu, field);
 }
 
 void Avtp_VssBrief_SetField(Avtp_VssBrief_t* vss_pdu,
                             Avtp_VssBriefFields_t field, uint64_t value)
 {
     Avtp_SetField(Avtp_VssBriefFieldDesc, AVTP_VSS_BRIEF_FIELD_MAX,
-                         (uint8_t *) vss_pdu, (uint8_t) field, value);
+                         (uint8_t *) vss_pdu, field, value);
 }
